@@ -9,7 +9,7 @@
    (Foot.doc); [run isdigit int_of fx footnote_sort footnote_transition d] is the whole pipeline. *)
 From Coq Require Import List NArith ZArith Bool Permutation Sorted.
 From MV Require Import Base.PyStr Base.Res Refs.RUtil Gen.Transforms Refs.Foot Refs.FootOps Refs.FootProofs Gen.FootSrc Refs.FootSrcProofs.
-From MV Require Import Refs.DocutilsOps Gen.DocutilsFootSrc Refs.DocutilsSrcProofs.
+From MV Require Import Refs.DocutilsOps Gen.DocutilsFootSrc Refs.DocutilsSrcProofs Refs.FootAllSrc.
 Import ListNotations.
 Open Scope N_scope.
 
@@ -228,22 +228,88 @@ Proof. exact warnings_exact_src. Qed.
 Print Assumptions C11_dup_and_unreferenced_src.
 
 (* ---- docutils' Footnotes transform, translated from the INSTALLED docutils source ------------------
-   Gen/DocutilsFootSrc.v is regenerated on every run from docutils/transforms/references.py (apply,
+   Gen/DocutilsFootSrc.v is regenerated on every run from docutils/transforms/references.py (Footnotes.apply,
    number_footnotes, number_footnote_references, resolve_footnotes_and_citations, resolve_references;
-   symbolize_footnotes locked by hash) over the log state of Refs/DocutilsOps.v.
-   Proved: the numbering method computes exactly the transcription Foot.number_footnotes - same labels
-   (the `while True` loop is next_label with the fuel of C11_total), same back-references, reference ids and
-   texts (after_auto) - and the branch that names an anonymous footnote is never taken.
-   PARTIAL: the other methods are tied to the transcription by running both, extracted, on every enumerated
-   registry (corr_docutils_only), not by proof; O_footnotes_xform therefore still names the transcription. *)
-Theorem C11_docutils_number_src_partial : forall ds start,
+   symbolize_footnotes locked by hash: MyST registers no symbol footnotes) over the log state of
+   Refs/DocutilsOps.v (the trusted mapping).  [docutils_footnotes_src] runs the translated apply and reads the
+   footnotes off the logs. *)
+
+(* the numbering method alone: the `while True` loop is next_label (fuel: C11_total), the nested loops log
+   exactly the labels / refids / texts / back-references of the transcription, an anonymous footnote is never named *)
+Theorem C11_docutils_number_src : forall ds start,
   number_footnotes_src ds start
   = match number_footnotes (ds_regs ds) (g_autofootnotes (ds_regs ds)) start with
     | Ok outs => Ok (after_auto ds outs, next_start start outs)
     | Raise e => Raise e
     end.
 Proof. exact number_footnotes_src_spec. Qed.
-Print Assumptions C11_docutils_number_src_partial.
+Print Assumptions C11_docutils_number_src.
+
+(* the whole transform: on every registry state the renderer can produce (invariant wf: the registered labels
+   are pairwise distinct and are the footnotes' names, references are indexed in document order, footnote_refs
+   groups them by label, auto/manual follows isdigit) the translated docutils source computes exactly the
+   transcription docutils_footnotes - number_footnote_references (one 'Too many' error iff an auto-numbered
+   reference has no definition, nothing replaced), resolve_footnotes_and_citations / resolve_references
+   (no reference resolved twice), and apply.  This discharges O_footnotes_xform for the translated source. *)
+Theorem C11_docutils_footnotes_src : forall isdigit s,
+  wf isdigit (s_regs s) -> docutils_footnotes_src s = docutils_footnotes s.
+Proof. exact docutils_footnotes_src_eq. Qed.
+Print Assumptions C11_docutils_footnotes_src.
+
+(* hence the pipeline in which BOTH the MyST transforms (transforms.py) and docutils' transform (installed
+   source) are the regenerated definitions is the model pipeline - no oracle premise *)
+Theorem C11_all_src_is_run : forall isdigit int_of fs ft d,
+  run_src isdigit int_of docutils_footnotes_src fs ft d = run isdigit int_of docutils_footnotes fs ft d.
+Proof. exact run_all_src_eq. Qed.
+Print Assumptions C11_all_src_is_run.
+
+(* and the main statements hold for it unconditionally *)
+Theorem C11_total_all_src : forall isdigit int_of fs ft d,
+  exists r, run_src isdigit int_of docutils_footnotes_src fs ft d = Ok r.
+Proof. exact total_all. Qed.
+Print Assumptions C11_total_all_src.
+
+Theorem C11_refs_point_to_defs_all_src : forall isdigit int_of fs ft d r,
+  run_src isdigit int_of docutils_footnotes_src fs ft d = Ok r ->
+    map ro_idx (x_refs r) = seq 0 (length (x_refs r)) /\
+    (forall f, In f (x_foots r) ->
+       fo_backrefs f = map ro_idx (filter (fun o => str_eqb (ro_label o) (lbl f)) (x_refs r))) /\
+    (forall o f, In o (x_refs r) -> In f (x_foots r) -> lbl f = ro_label o ->
+       ro_refid o = Some (lbl f) /\ ro_text o = Some (fo_display f) /\ In (ro_idx o) (fo_backrefs f)) /\
+    (forall o, In o (x_refs r) -> (forall f, In f (x_foots r) -> lbl f <> ro_label o) -> ro_refid o = None).
+Proof. exact refs_point_to_defs_all. Qed.
+Print Assumptions C11_refs_point_to_defs_all_src.
+
+Theorem C11_labels_distinct_all_src : forall isdigit int_of fs ft d r,
+  run_src isdigit int_of docutils_footnotes_src fs ft d = Ok r -> NoDup (map fo_display (x_foots r)).
+Proof. exact labels_distinct_all. Qed.
+Print Assumptions C11_labels_distinct_all_src.
+
+Theorem C11_auto_order_partial_all_src : forall isdigit int_of ft d r,
+  run_src isdigit int_of docutils_footnotes_src true ft d = Ok r ->
+  forall fa fb ka kb i j,
+    In fa (x_foots r) -> In fb (x_foots r) ->
+    fo_num fa = Some ka -> fo_num fb = Some kb ->
+    index_of (lbl fa) (auto_ref_labels isdigit r) = Some i ->
+    index_of (lbl fb) (auto_ref_labels isdigit r) = Some j ->
+    (i < j)%nat -> ka < kb.
+Proof. exact auto_order_all. Qed.
+Print Assumptions C11_auto_order_partial_all_src.
+
+(* the registry methods of docutils/nodes.py (class document) that the renderer calls, translated from the
+   installed source as well: note_autofootnote / note_footnote / note_autofootnote_ref / note_footnote_ref are the
+   model operations; note_explicit_target -> set_name_id_map is the model operation whenever the name is not
+   registered yet - the branch into set_duplicate_name_id (dupnames) is outside the footnote model (in C09 the
+   registries, dupnames included, are read from the real document) *)
+Theorem C11_docutils_registry_methods_src : forall g (f : fn) (r : rf),
+  (note_autofootnote_doc g f = note_autofootnote g f /\
+   note_footnote_doc g f = note_footnote g f /\
+   note_autofootnote_ref_doc g r = note_autofootnote_ref g r /\
+   note_footnote_ref_doc g r = note_footnote_ref g r) /\
+  (mem_str (f_label f) (g_nameids g) = false ->
+   note_explicit_target_doc g f = Ok (note_explicit_target g f)).
+Proof. exact (fun g f r => conj (note_methods_doc_eq g f r) (note_explicit_target_doc_eq g f)). Qed.
+Print Assumptions C11_docutils_registry_methods_src.
 
 (* symbol footnotes ([*]_) and anonymous auto-numbered footnotes ([#]_) cannot come from Markdown: a label such
    as [^*] is an ordinary name.  On the render model every registered footnote carries exactly its label as
